@@ -108,24 +108,24 @@ def _seam():
 
 def c08(ctx):
     t = ctx.thorough
-    ctx.mon("c08/asm-debug", "asm", "debug", ["c08", "--scale", "3" if t else "1"], timeout=5400)
-    ctx.mon("c08/asm-release", "asm", "release", ["c08", "--scale", "3" if t else "0.5"], timeout=5400)
+    ctx.mon("c08/asm-debug", "asm", "debug", ["c08", "--scale", "1.5" if t else "1"], timeout=5400)
+    ctx.mon("c08/asm-release", "asm", "release", ["c08", "--scale", "1.5" if t else "0.5"], timeout=5400)
     ctx.mon("c08/huge", "asm", "release", ["huge", "--what", "rayon"], timeout=5400)
     # update_mmap_rayon is a multithreaded entry point too: the file battery of C11 (length lattice
     # around the mmap threshold, special files, block device, reads interrupted by real signals)
     ctx.mon("c08/file-entry-points", "asm", "release", ["c11", "--files-only", "1"], adopt=lambda sig: "update_mmap_rayon" in sig)
-    ctx.mon("c08/intr-debug", "intr", "debug", ["c08", "--scale", "1" if t else "0.3"], timeout=5400)
+    ctx.mon("c08/intr-debug", "intr", "debug", ["c08", "--scale", "0.6" if t else "0.3"], timeout=5400)
     import cbuild
     tbb_native = cbuild.build("int", "native", extra_defs=["-DBLAKE3_USE_TBB"], extra_srcs=[_seam()], name="cdrv_int_tbb")
     tbb_asm = cbuild.build("asm", "native", extra_defs=["-DBLAKE3_USE_TBB"], extra_srcs=[_seam()], name="cdrv_asm_tbb")
     tbb_tsan = cbuild.build("int", "tsan", extra_defs=["-DBLAKE3_USE_TBB"], extra_srcs=[_seam()], name="cdrv_int_tbb_tsan")
-    core.cdrv_run(ctx, "c/update_tbb-int", "int", "native", "api", scale=4.0 if t else 1.0, gen_extra=["--tbb", "1"], exe=tbb_native)
-    core.cdrv_run(ctx, "c/update_tbb-asm", "asm", "native", "api", scale=4.0 if t else 1.0, gen_extra=["--tbb", "1"], exe=tbb_asm)
+    core.cdrv_run(ctx, "c/update_tbb-int", "int", "native", "api", scale=2.0 if t else 1.0, gen_extra=["--tbb", "1"], exe=tbb_native)
+    core.cdrv_run(ctx, "c/update_tbb-asm", "asm", "native", "api", scale=2.0 if t else 1.0, gen_extra=["--tbb", "1"], exe=tbb_asm)
     jobs = [
-        lambda: core.cdrv_run(ctx, "c/update_tbb-tsan", "int", "tsan", "api", scale=1.5 if t else 0.3, shards=8, gen_extra=["--tbb", "1"], exe=tbb_tsan,
+        lambda: core.cdrv_run(ctx, "c/update_tbb-tsan", "int", "tsan", "api", scale=0.7 if t else 0.3, shards=8, gen_extra=["--tbb", "1"], exe=tbb_tsan,
                               env_extra={"TSAN_OPTIONS": "halt_on_error=1 exitcode=66"}),
-        lambda: core.tsan_mon(ctx, "rust/tsan", ["c08", "--scale", "1.0" if t else "0.2"]),
-        lambda: core.miri_run(ctx, "rust/miri", ["c08", "--miri-small", "1", "--scale", "0.08" if t else "0.012"], shards=16, flavour="pure-rayon",
+        lambda: core.tsan_mon(ctx, "rust/tsan", ["c08", "--scale", "0.5" if t else "0.2"]),
+        lambda: core.miri_run(ctx, "rust/miri", ["c08", "--miri-small", "1", "--scale", "0.03" if t else "0.012"], shards=16, flavour="pure-rayon",
                               miriflags="-Zmiri-tree-borrows -Zmiri-permissive-provenance -Zmiri-ignore-leaks -Zmiri-seed={shard}"),
     ]
     ctx.parallel(jobs, workers=3)
@@ -181,7 +181,7 @@ def c04(ctx):
     """Battery = the C01/C02/C03/C09 monitors (each compares with specmodel, so the comparison is
     N-way) executed in every cell of flavour x forced SIMD level x feature set x profile."""
     t = ctx.thorough
-    sc = "0.25" if t else "0.12"
+    sc = "0.15" if t else "0.12"
     cells = []
     for fl in ("asm", "intr", "pure"):
         for p in ("portable", "sse2", "sse41", "avx2", "avx512"):
@@ -279,20 +279,20 @@ def c06(ctx):
 def c07(ctx):
     t = ctx.thorough
     # 1. native: kernel sweep + API histories, every buffer in a guard arena, asm through trampolines
-    kernel_sweeps(ctx, 2.0 if t else 0.5)
-    core.cdrv_run(ctx, "api/cdrv-asm", "asm", "native", "api", scale=4.0 if t else 0.5)
-    core.cdrv_run(ctx, "api/cdrv-int", "int", "native", "api", scale=4.0 if t else 0.5)
+    kernel_sweeps(ctx, 1.0 if t else 0.5)
+    core.cdrv_run(ctx, "api/cdrv-asm", "asm", "native", "api", scale=1.5 if t else 0.5)
+    core.cdrv_run(ctx, "api/cdrv-int", "int", "native", "api", scale=1.5 if t else 0.5)
     # 1b. the assembly kernels again while a timer signal handler keeps running on the same stack
     # (stack discipline: nothing live below the red zone / below rsp)
-    so = core.cdrv_run(ctx, "kernels/cdrv-asm-sigstorm", "asm", "native", "kernels", scale=1.0 if t else 0.25, env_extra={"CDRV_SIGSTORM": "40"})
+    so = core.cdrv_run(ctx, "kernels/cdrv-asm-sigstorm", "asm", "native", "kernels", scale=0.5 if t else 0.25, env_extra={"CDRV_SIGSTORM": "40"})
     if not so["classes"].get("storm_signals_inside_monitored_calls"):
         ctx.note_inconclusive("signal storm: no signal was delivered inside a monitored call")
     ctx.mon("kernels/rust-asm-sigstorm", "asm", "release", ["kern", "--scale", "0.5" if t else "0.2"], env_extra={"VERIF_SIGSTORM": "40"})
     ctx.mon("rust-api-sigstorm/c03", "asm", "release", ["c03", "--scale", "0.5"], env_extra={"VERIF_SIGSTORM": "40"}, adopt=lambda sig: sig.startswith("C03/"))
     # 2. Rust API level: every update slice / fill destination flush against a guard page
-    ctx.mon("rust-api-guard/c02", "asm", "debug", ["c02", "--guard", "1", "--scale", "2" if t else "0.3"], adopt=lambda sig: ("canary" in sig or "fatal" in sig))
-    ctx.mon("rust-api-guard/c03", "asm", "debug", ["c03", "--guard", "1", "--scale", "2" if t else "0.3"], adopt=lambda sig: ("canary" in sig or "fatal" in sig))
-    ctx.mon("rust-api-guard/c02-intr", "intr", "debug", ["c02", "--guard", "1", "--scale", "1" if t else "0.15"], adopt=lambda sig: ("canary" in sig or "fatal" in sig))
+    ctx.mon("rust-api-guard/c02", "asm", "debug", ["c02", "--guard", "1", "--scale", "1" if t else "0.3"], adopt=lambda sig: ("canary" in sig or "fatal" in sig))
+    ctx.mon("rust-api-guard/c03", "asm", "debug", ["c03", "--guard", "1", "--scale", "1" if t else "0.3"], adopt=lambda sig: ("canary" in sig or "fatal" in sig))
+    ctx.mon("rust-api-guard/c02-intr", "intr", "debug", ["c02", "--guard", "1", "--scale", "0.5" if t else "0.15"], adopt=lambda sig: ("canary" in sig or "fatal" in sig))
     ctx.mon("safe-api-probes", "asm", "debug", ["probes"])
     ctx.mon("safe-api-probes-intr", "intr", "debug", ["probes"])
     # 3. sanitizer / interpreter / memcheck builds of the same workloads, concurrently
@@ -302,10 +302,10 @@ def c07(ctx):
     def vg(what, scale):
         return lambda: core.cdrv_run(ctx, "valgrind/asm-%s" % what, "asm", "native", what, scale=scale, shards=4, gen_extra=["--no-avx512", "1"],
                                      wrapper=["valgrind", "-q", "--error-exitcode=0", "--track-origins=no"], trace=True, timeout=2400)
-    jobs = [asan("asm", "kernels", 1.0 if t else 0.15), asan("int", "kernels", 1.0 if t else 0.15), asan("asm", "api", 2.0 if t else 0.25), asan("int", "api", 2.0 if t else 0.25),
-            vg("kernels", 0.3 if t else 0.02), vg("api", 0.5 if t else 0.04),
-            lambda: core.miri_run(ctx, "miri/kern", ["kern", "--randomize", "1", "--scale", "0.016" if t else "0.001"], shards=16),
-            lambda: core.miri_run(ctx, "miri/hist", ["c02", "--scale", "0.2" if t else "0.012", "--miri-small", "1"], shards=16)]
+    jobs = [asan("asm", "kernels", 0.4 if t else 0.15), asan("int", "kernels", 0.4 if t else 0.15), asan("asm", "api", 0.7 if t else 0.25), asan("int", "api", 0.7 if t else 0.25),
+            vg("kernels", 0.06 if t else 0.02), vg("api", 0.12 if t else 0.04),
+            lambda: core.miri_run(ctx, "miri/kern", ["kern", "--randomize", "1", "--scale", "0.004" if t else "0.001"], shards=16),
+            lambda: core.miri_run(ctx, "miri/hist", ["c02", "--scale", "0.04" if t else "0.012", "--miri-small", "1"], shards=16)]
     ctx.parallel(jobs, workers=len(jobs))
 
 
@@ -406,7 +406,7 @@ def c18(ctx):
     t = ctx.thorough
     import cbuild
     # Rust: many fresh processes, N threads each, first calls racing on detection
-    nproc = 400 if t else 48
+    nproc = 150 if t else 48
     sizes = [2, 4, 16, 64]
     core.cargo_build("asm", "release")
     core.cargo_build("asm", "debug")
@@ -423,21 +423,21 @@ def c18(ctx):
     cmt = cbuild.build_cmt("native")
     # each cmt invocation forks ROUNDS fresh processes (detection cache UNDEFINED in each), threads
     # start staggered by 0-3 us, every history begins with one large update
-    core.cdrv_run(ctx, "c/cmt", "asm", "native", "api", scale=6.0 if t else 1.5, shards=16, exe=cmt, gen_extra=["--first-big", "1"],
-                  exe_args=lambda i: [str(sizes[i % 4]), "400" if t else "60", str(ctx.seed * 100 + i)])
+    core.cdrv_run(ctx, "c/cmt", "asm", "native", "api", scale=3.0 if t else 1.5, shards=16, exe=cmt, gen_extra=["--first-big", "1"],
+                  exe_args=lambda i: [str(sizes[i % 4]), "150" if t else "60", str(ctx.seed * 100 + i)])
     # the same with one history in eight opening with a single 1-20 MiB update (process-wide state
     # that depends on input size must not disturb hashers that are in the middle of their own work)
-    core.cdrv_run(ctx, "c/cmt-very-big-first", "asm", "native", "api", scale=2.0 if t else 0.5, shards=16, exe=cmt, gen_extra=["--first-big", "2"],
-                  exe_args=lambda i: [str(sizes[1 + i % 3]), "200" if t else "40", str(ctx.seed * 100 + 50 + i)])
+    core.cdrv_run(ctx, "c/cmt-very-big-first", "asm", "native", "api", scale=1.0 if t else 0.5, shards=16, exe=cmt, gen_extra=["--first-big", "2"],
+                  exe_args=lambda i: [str(sizes[1 + i % 3]), "80" if t else "40", str(ctx.seed * 100 + 50 + i)])
     def tsan_rust():
-        for k in range(12 if t else 3):
+        for k in range(6 if t else 3):
             core.tsan_mon(ctx, "rust/tsan-proc%d" % k, ["c18", "--nthreads", str([4, 16, 8][k % 3]), "--proc", str(1000 + k), "--per-thread", "3"])
     jobs = [
         tsan_rust,
-        lambda: core.cdrv_run(ctx, "c/cmt-tsan", "int", "tsan", "api", scale=1.0 if t else 0.25, shards=8 if t else 4, exe=cbuild.build_cmt("tsan"),
+        lambda: core.cdrv_run(ctx, "c/cmt-tsan", "int", "tsan", "api", scale=0.5 if t else 0.25, shards=8 if t else 4, exe=cbuild.build_cmt("tsan"),
                               gen_extra=["--first-big", "1"], exe_args=lambda i: [str([4, 16][i % 2]), "6" if t else "3", str(ctx.seed * 100 + i)],
                               env_extra={"TSAN_OPTIONS": "halt_on_error=1 exitcode=66"}),
-        lambda: core.miri_run(ctx, "rust/miri", ["c18", "--miri-small", "1", "--nthreads", "3", "--per-thread", "1"], shards=32 if t else 12, flavour="pure",
+        lambda: core.miri_run(ctx, "rust/miri", ["c18", "--miri-small", "1", "--nthreads", "3", "--per-thread", "1"], shards=20 if t else 12, flavour="pure",
                               miriflags="-Zmiri-seed={shard}"),
     ]
     ctx.parallel(jobs, workers=3)
